@@ -1,7 +1,7 @@
 #!/bin/bash
 # setup.sh — build the framework from files on disk only (offline).
 set -e
-cd /verif
+cd ${VERIF_ROOT:-/verif}
 export GOFLAGS=-mod=mod GOPROXY=off GOSUMDB=off GOTOOLCHAIN=local
 tools/gen_tables.sh
 ( cd coq && coq_makefile -f _CoqProject -o Makefile >/dev/null && timeout 3000 make -j16 )
